@@ -385,8 +385,9 @@ func (c *Ctx) c18Pair(s *Sub, sub string, seed seedProg, transformed string, inv
 	if a.Class() == run.Abnormal {
 		return // abnormal termination of the seed itself is C07's subject
 	}
-	bo, be := c18Normalize(b.Out, inverse), c18Normalize(run.FirstLine(b.Err), inverse)
-	ao, ae := c18Normalize(a.Out, inverse), c18Normalize(run.FirstLine(a.Err), inverse)
+	// every diagnostic, not only the first: how many are written and what they say is part of "why it fails"
+	bo, be := c18Normalize(b.Out, inverse), c18Normalize(b.Err, inverse)
+	ao, ae := c18Normalize(a.Out, inverse), c18Normalize(a.Err, inverse)
 	if a.Class() != b.Class() || ao != bo || ae != be {
 		s.Violation(Replay{Check: "invariance", Sig: "changed-" + fam, Source: transformed, Stdin: seed.Stdin, Extra: map[string]string{"seed": seed.Src, "inverse": fmt.Sprint(inverse)},
 			Note:     "the transformed program (" + fam + ") behaves differently from the seed",
@@ -478,6 +479,60 @@ func TestC18(t *testing.T) {
 		if c.Thorough {
 			n = 20000
 		}
+		// (a) also holds for text that is not a valid program: the diagnostics it gets — how many, which, about
+		// which token — may not depend on layout.  Seeds are damaged at token level (a token dropped, doubled,
+		// swapped with its neighbour or replaced), written on one line, and re-laid out.
+		c.Rapid("layout-of-invalid-programs", n/4, func(rt *rapid.T, s *Sub) {
+			seed := drawSeed(rt, examples)
+			ref := reflex.Lex([]rune(seed.Src))
+			if len(ref.Diags) > 0 || len(ref.Toks) < 3 {
+				c.Ev.Discard("seed-not-lexable")
+				return
+			}
+			var parts []string
+			for _, t := range ref.Toks {
+				if t.Kind != bn.TEOF {
+					parts = append(parts, t.Text)
+				}
+			}
+			repl := []string{";", ")", "(", "}", "{", ",", "=", "+", ".", "]", "[", ":", bn.KwVar, bn.KwElse, bn.KwFun, bn.KwReturn, "1", "x", "\"s\""}
+			nm := rapid.IntRange(1, 2).Draw(rt, "damage")
+			for k := 0; k < nm && len(parts) > 1; k++ {
+				i := rapid.IntRange(0, len(parts)-1).Draw(rt, "at")
+				switch rapid.IntRange(0, 3).Draw(rt, "how") {
+				case 0:
+					parts = append(parts[:i:i], parts[i+1:]...)
+				case 1:
+					parts = append(parts[:i+1:i+1], parts[i:]...)
+				case 2:
+					if i+1 < len(parts) {
+						parts[i], parts[i+1] = parts[i+1], parts[i]
+					}
+				default:
+					parts[i] = rapid.SampledFrom(repl).Draw(rt, "with")
+				}
+			}
+			base := strings.Join(parts, " ") + "\n"
+			rb := reflex.Lex([]rune(base))
+			if len(rb.Diags) > 0 {
+				// the token list would not carry the offending characters
+				c.Ev.Discard("damaged-text-not-lexable")
+				return
+			}
+			invalid := !refparse.Parse(rb.Toks).OK
+			var cnt c18Counts
+			out, _ := transformTokens(rt, rb.Toks, false, false, false, true, &cnt)
+			// the layout may only add separators: the token texts must be unchanged
+			ro := reflex.Lex([]rune(out))
+			if len(ro.Toks) != len(rb.Toks) {
+				s.Harness("layout changed the token sequence:\n%s\n---\n%s", base, out)
+			}
+			kind := "damaged-still-valid"
+			if invalid {
+				kind = "damaged-invalid"
+			}
+			c.c18Pair(s, "layout-of-invalid-programs", seedProg{Src: base, Stdin: seed.Stdin, Kind: kind}, out, map[string]string{}, rapid.IntRange(0, 24).Draw(rt, "cli") == 0, "layout-invalid")
+		})
 		for fi := 0; fi < 7; fi++ {
 			fi := fi
 			name := "all-families-combined"
